@@ -68,6 +68,26 @@ Section Coalescent.
   Definition coal_sfs_all (theta : F) (eps : list epoch) (nuA : F) (n : nat) : list F :=
     let ejl := map (ej_hist eps nuA) (seq 0 (S n)) in
     map (coal_sfs theta (fun j => nth j ejl n0) n) (seq 1 (n - 1)).
+
+  (** ** mutation rate changing with time: theta(s) piecewise constant on the same epochs.
+      E[SFS_i] = 1/2 sum_j w^n_{ij} int_0^infty theta(s) exp(-C(j,2) Lam(s)) ds: every epoch's share of e_j is weighted
+      by the theta in force during that epoch (thA during the ancestral epoch).  With all thetas equal this is
+      theta * e_j (Proofs/CoalescentProofs.v: ej_aux_th_uniform). *)
+  Fixpoint ej_aux_th (c L : F) (eps : list (F * epoch)) (nuA thA : F) : F :=
+    match eps with
+    | [] => thA * (gexp (- (c * L)) * nuA / c)
+    | (th, EConst nu T) :: t =>
+        th * (gexp (- (c * L)) * nu / c * (n1 - gexp (- (c * T / nu)))) + ej_aux_th c (L + T / nu) t nuA thA
+    | (th, EExp nu0 nu1 T) :: t =>
+        let r := nln (nu0 / nu1) / T in
+        let Lam := fun s => (nexp (r * s) - n1) / (r * nu0) in
+        th * quad (fun s => gexp (- (c * (L + Lam s)))) n0 T + ej_aux_th c (L + Lam T) t nuA thA
+    end.
+  Definition ej_hist_th (eps : list (F * epoch)) (nuA thA : F) (j : nat) : F :=
+    ej_aux_th (nofZ (zbinom j 2)) n0 eps nuA thA.
+  Definition coal_sfs_all_th (eps : list (F * epoch)) (nuA thA : F) (n : nat) : list F :=
+    let ejl := map (ej_hist_th eps nuA thA) (seq 0 (S n)) in
+    map (coal_sfs n1 (fun j => nth j ejl n0) n) (seq 1 (n - 1)).
 End Coalescent.
 
 (** ** closed-form selection equilibrium spectrum (genic, h = 1/2), series evaluated in fixed point on Z
